@@ -8,7 +8,7 @@
    lines = first:  kind code [state vs all-zero memory] ticks execs cmds attached nbps (addr predefined)*
            then one line per debugger stderr line: 7e char*
            (a source that does not assemble or load gives the single line "9") *)
-From Lace Require Import Word Machine Isa Vm Asm Dbg Driver DebugText.
+From Lace Require Import Word Machine Isa Vm Asm Dbg Driver DebugText DbgStream.
 Open Scope N_scope.
 
 Definition dec_mem (l : list N) : memloc * list N :=
@@ -94,3 +94,23 @@ Definition run_dbgt (args : list N) : list (list N) :=
     | Some r => enc_session r
     | None => [[9]]
     end.
+
+(** One console stream shared by the debugger's reader and the program (DbgStream.v):
+    case  = DBGS feat fuel nsrc src* has_arg narg arg* nstream stream*
+    lines = as for DBG; "8" when outside the domain of DbgStream.v *)
+Definition run_dbgs (args : list N) : list (list N) :=
+  let feat := negb (hdN args =? 0) in
+  let fuel := N.to_nat (hdN (tlN args)) in
+  let '(src, r1) := take (N.to_nat (hdN (tlN (tlN args)))) (tlN (tlN (tlN args))) in
+  let has_arg := negb (hdN r1 =? 0) in
+  let '(arg, r2) := take (N.to_nat (hdN (tlN r1))) (tlN (tlN r1)) in
+  let '(stream, _) := take (N.to_nat (hdN r2)) (tlN r2) in
+  let a := if has_arg then Some arg else None in
+  match assemble feat [] src with
+  | (Ok _, _) =>
+      match debug_stream feat src a stream fuel with
+      | Some r => enc_session r
+      | None => [[8]]
+      end
+  | _ => [[9]]
+  end.
